@@ -61,4 +61,9 @@ Section Interleave.
       exists (y :: l1), l2; cbn; subst; repeat split; auto.
       intros x; rewrite Hu; auto.
   Qed.
+
+  Lemma Forall_upd_nth (P : L -> Prop) : forall k x l, Forall P l -> P x -> Forall P (upd_nth k x l).
+  Proof.
+    induction k; intros x [|y l] Hl Hx; cbn; auto; inversion Hl; subst; constructor; auto.
+  Qed.
 End Interleave.
